@@ -173,6 +173,30 @@ func VerifJobScript(template string, shellCmd string, argv []string,
 		&JobResources{Threads: threads, MemGB: memGB}, fqname, shellName)
 }
 
+// VerifJobScripter returns a renderer of job scripts bound to one job manager,
+// as mrp has one; the harness calls it from several goroutines, as execJob
+// does when --maxjobs is set.
+func VerifJobScripter(template string) func(shellCmd string, argv []string,
+	envs map[string]string, mdPath, fqname, shellName string,
+	threads, memGB float64) string {
+	m := &RemoteJobManager{
+		config: jobManagerConfig{
+			jobSettings: &JobManagerSettings{
+				ThreadsPerJob: 1, MemGBPerJob: 1, ExtraVmemGB: 1,
+				ThreadEnvs: []string{"MRO_THREADS"},
+			},
+			jobTemplate:      template,
+			threadingEnabled: true,
+		},
+	}
+	return func(shellCmd string, argv []string,
+		envs map[string]string, mdPath, fqname, shellName string,
+		threads, memGB float64) string {
+		return m.jobScript(shellCmd, argv, envs, NewMetadata(fqname, mdPath),
+			&JobResources{Threads: threads, MemGB: memGB}, fqname, shellName)
+	}
+}
+
 // VerifPipestanceNodes lists (fqname, kind, state) of every node.
 func (self *Pipestance) VerifNodeStates() map[string]string {
 	r := make(map[string]string)
